@@ -149,7 +149,10 @@ def decodeSchema (j : Json) : Except String Schema := do
     | k => throw s!"bad type kind {k}"
   let optStr (k : String) : Except String (Option String) :=
     match optField j k with | some v => do pure (some (← v.getStr?)) | none => pure none
-  pure ⟨types, ← strField j "query", ← optStr "mutation", ← optStr "subscription"⟩
+  let extra ← (arrField j "directives").mapM fun dj => do
+    pure ({ name := ← strField dj "name", args := ← (arrField dj "args").mapM decodeArgDef, locations := ← strList dj "locations" } : DirectiveDef)
+  pure { types := types, queryType := ← strField j "query", mutationType := ← optStr "mutation", subscriptionType := ← optStr "subscription",
+         directives := builtinDirectives ++ extra }
 
 def decodeResolver (j : Json) : Except String ResolverSpec := do
   let k ← strField j "k"
